@@ -291,7 +291,22 @@ def rows_job(job):
             pup.set_mtu(mtu)
         if real == "paired":
             rig.await_(rig.cc.pair, limit=120)
-        if real:
+        if real in ("enc-on-off", "enc-on-off-v2"):
+            # the controller reports encryption switched on, later switched off again (real HCI events delivered to the
+            # server's host): from then on the link is plain, whatever the stack remembers
+            from bumble import hci
+
+            tap = rig.net.stacks[1].tap
+            hdl = rig.pc.handle
+            for on in (1, 0):
+                if real == "enc-on-off":
+                    e = hci.HCI_Encryption_Change_Event(status=0, connection_handle=hdl, encryption_enabled=on)
+                else:
+                    e = hci.HCI_Encryption_Change_V2_Event(status=0, connection_handle=hdl, encryption_enabled=on, encryption_key_size=16 if on else 0)
+                rig.call(lambda e=e: tap.inject_to_host(bytes(e)))
+                rig.run(1.0)
+            sec = "plain"
+        elif real:
             # link security as the stack itself established it; read back from the public attributes
             enc, authn = bool(rig.pc.encryption), bool(rig.pc.authenticated)
             sec = "authn" if (enc and authn) else "enc" if enc else "plain"
@@ -382,6 +397,16 @@ def plan(ctx, patch=None, small=False):
     sample = [0x00, 0x01, 0x02, 0x03, 0x04, 0x05, 0x08, 0x0B, 0x10, 0x11, 0x13, 0x15, 0x20, 0x23, 0x2B, 0x40, 0x41, 0x80, 0x83, 0xFF]
     jobs.append(("raw", "fixed", 23, None, OPS, sample, seed, patch, "fresh"))
     jobs.append(("raw", "fixed", 23, None, OPS, sample, seed, patch, "paired"))
+    # encryption reported on, then off again.  Judged for permission bytes whose requirement is about encryption: whether a
+    # link stays "authenticated" once it is no longer encrypted is not something the property determines (the stack's
+    # `authenticated` flag is C13's business), so bytes that demand authentication without encryption are left out
+    encp = [p for p in sorted(set(sample) | {0x04, 0x05, 0x08, 0x0A, 0x0F, 0x14, 0x15, 0x28, 0x2A, 0x3F}) if (not p & 0x10 or p & 0x04) and (not p & 0x20 or p & 0x08)]
+    jobs.append(("raw", "fixed", 23, None, OPS, encp, seed, patch, "enc-on-off"))
+    jobs.append(("raw", "fixed", 23, None, READ_OPS[:2] + WRITE_OPS, encp, seed, patch, "enc-on-off-v2"))
+    # characteristic values (properties say READ | WRITE whatever the permission byte): the permission byte decides
+    jobs.append(("char", "fixed", 23, "plain", OPS, sample, seed, patch, None))
+    jobs.append(("char", "fixed", 23, "enc", WRITE_OPS + READ_OPS[:2], sample, seed, patch, None))
+    jobs.append(("desc", "fixed", 23, "plain", WRITE_OPS + READ_OPS[:2], sample, seed, patch, None))
     # the same rows after an authenticated peer on ANOTHER connection has accessed the same attribute (two clients)
     hperms = sample if ctx.quick else sorted(set(sample) | set(range(0, 256, 3)))
     for sec in ("plain", "enc"):
